@@ -301,6 +301,7 @@ pub fn simplify_bezpath(
     options: &SimplifyOptions,
 ) -> BezPath {
     let mut last_pt = None;
+    let mut start_pt = None;
     let mut last_seg: Option<PathSeg> = None;
     let mut state = SimplifyState::default();
     for el in path {
@@ -310,6 +311,7 @@ pub fn simplify_bezpath(
                 state.flush(accuracy, options);
                 state.needs_moveto = true;
                 last_pt = Some(p);
+                start_pt = Some(p);
             }
             PathEl::LineTo(p) => {
                 let last = last_pt.unwrap();
@@ -334,9 +336,17 @@ pub fn simplify_bezpath(
             }
             PathEl::ClosePath => {
                 state.flush(accuracy, options);
+                if state.needs_moveto {
+                    // Nothing has been drawn in this subpath; keep it as a closed point.
+                    if let Some(p) = start_pt {
+                        state.result.move_to(p);
+                    }
+                }
                 state.result.close_path();
                 state.needs_moveto = true;
                 last_seg = None;
+                // The current point is back at the start of the subpath.
+                last_pt = start_pt;
                 continue;
             }
         }
